@@ -111,6 +111,13 @@ def gen_table(ctx):
             for c in ctx.rng.sample(range(n), 3):
                 ts[c] = ctx.rng.randint(0, 1000)
         mode = "wide"
+    elif n >= 3 and ctx.rng.random() < 0.12:
+        # the same partial test entered twice (one response analysed in two units, a test function listed twice): identical columns
+        c1, c2 = ctx.rng.sample(range(n), 2)
+        tv = [list(r) for r in tv]; ts = list(ts)
+        for r in tv:
+            r[c2] = r[c1]
+        ts[c2] = ts[c1]
     return reps, n, tv, ts, mode
 
 
